@@ -63,6 +63,17 @@ def gen_cases(rng, tier):
     if rmin is not None:
       node["rmin"] = rmin
     cases.append({"kind": "spline", "node": node})
+    if i % 6 == 0:
+      # neighbours: splines built in ONE process that differ from this one in exactly one of detach / r_min / attach
+      import copy
+      nodes = [node]
+      for key, delta in (("rmin", 0.07), ("rd", -0.05), ("ra", 0.06), ("rmin", -0.06)):
+        if key in node:
+          n2 = copy.deepcopy(node)
+          n2[key] = round(n2[key] + delta, 4)
+          if n2["rd"] < n2.get("rmin", (n2["rd"] + n2["ra"]) / 2) < n2["ra"]:
+            nodes.append(n2)
+      cases.append({"kind": "neighbours", "nodes": nodes})
   nb = 30 if tier == "quick" else 400
   for i in range(nb):
     rd = spec.rfloat(rng, 0.6, 1.8, 2)
@@ -160,6 +171,11 @@ def run_buck4(case, ctx):
 
 
 def run_case(case, ctx):
+  if case.get("kind") == "neighbours":
+    ctx.cls("kind:neighbour_splines_in_one_process")
+    for nd in case["nodes"]:
+      run_case({"kind": "spline", "node": nd}, ctx)
+    return
   if case.get("kind") == "suite":
     import suite_contracts
     ctx.cls("kind:suite_with_contracts")
